@@ -82,36 +82,27 @@ def truth(ts, mask):
 
 
 # ---------------------------------------------------------------- model side
-def coq_case(ts, rmask, small):
-    es = S.coq_edges(ts)
-    ins, rem = S.coq_index(ts)
-    L = cZ(int(ts.sequence_length))
-    smp = S.coq_bools(S.is_sample_list(ts))
-    rm = S.coq_bools(rmask)
+def coq_case(k, ts, rmask, small):
+    """(definitions, term) for case number k"""
+    defs = S.coq_table_defs(k, ts) + "Definition rm%d := %s.\n" % (k, S.coq_bools(rmask))
     nn = cnat(ts.num_nodes)
-    ref = ("Some (ref_unary es (fun _ => false) %s %s, ref_unary es (of_list false %s) %s %s)" % (nn, L, smp, nn, L)
+    d = {"k": k, "nn": nn}
+    ref = ("Some (ref_unary es%(k)d (fun _ => false) %(nn)s L%(k)d, ref_unary es%(k)d (of_list false smp%(k)d) %(nn)s L%(k)d)" % d
            if small else "@None (bool * bool)")
-    return ("(let es := %s in let ins := %s in let rem := %s in "
-            "(valid_tablesb %s es ins rem, "
-            "contains_unary_nodes es (of_list false %s) true %s ins rem, "
-            "contains_unary_nodes es (of_list false %s) false %s ins rem, "
-            "contains_unary es (of_list false %s) %s ins rem, "
-            "prior_unary es, "
-            "vgamma_rejects false es (of_list false %s) %s ins rem, "
-            "vgamma_rejects true es (of_list false %s) %s ins rem, "
-            "discrete_rejects false es, discrete_rejects true es, %s))"
-            % (es, ins, rem, L, smp, L, smp, L, rm, L, smp, L, smp, L, ref))
+    term = ("(valid_tablesb L%(k)d es%(k)d ins%(k)d rem%(k)d, "
+            "contains_unary_nodes es%(k)d (of_list false smp%(k)d) true L%(k)d ins%(k)d rem%(k)d, "
+            "contains_unary_nodes es%(k)d (of_list false smp%(k)d) false L%(k)d ins%(k)d rem%(k)d, "
+            "contains_unary es%(k)d (of_list false rm%(k)d) L%(k)d ins%(k)d rem%(k)d, "
+            "prior_unary es%(k)d, "
+            "vgamma_rejects false es%(k)d (of_list false smp%(k)d) L%(k)d ins%(k)d rem%(k)d, "
+            "vgamma_rejects true es%(k)d (of_list false smp%(k)d) L%(k)d ins%(k)d rem%(k)d, "
+            "discrete_rejects false es%(k)d, discrete_rejects true es%(k)d, " % d) + ref + ")"
+    return defs, term
 
 
 def run_model(ctx, items):
-    out = []
-    for i in range(0, len(items), 300):
-        chunk = items[i:i + 300]
-        body = "".join("Eval vm_compute in %s.\n" % coq_case(ts, rmask, small) for ts, rmask, small in chunk)
-        res = ctx.coq_eval(body, requires=("lib.Tables", "model.Sweep", "model.Unary"), tag="unary")
-        assert len(res) == len(chunk), (len(res), len(chunk))
-        out.extend(res)
-    return out
+    texts = [coq_case(k, ts, rmask, small) for k, (ts, rmask, small) in enumerate(items)]
+    return S.coq_run_cases(ctx, texts, ("lib.Tables", "model.Sweep", "model.Unary"), "unary")
 
 
 def opt(v):
@@ -278,13 +269,18 @@ def run(ctx, model_ok=True):
             if v is not None:
                 items.append((v, [False] * v.num_nodes, kind + "+unary-are-samples", small))
     impls = []
+    hung = False
     for ts, rmask, kind, small in items:
-        try:
-            impl = impl_all(ts, rmask)
-        except S.ImplTimeout as e:
-            ctx.oracle_fail("timeout", str(e), {"tables": S.describe(ts), "kind": kind})
-            impl = None
+        impl = None
+        if not hung:
+            try:
+                impl = impl_all(ts, rmask)
+            except S.ImplTimeout as e:      # a detector that does not return: report once, stop calling it
+                ctx.oracle_fail("timeout", str(e), {"tables": S.describe(ts), "kind": kind, "rmask": rmask})
+                hung = True
         impls.append(impl)
+    if hung:
+        return
     models = run_model(ctx, [(ts, rmask, small) for ts, rmask, kind, small in items]) if model_ok else None
     for i, (ts, rmask, kind, small) in enumerate(items):
         impl = impls[i]
